@@ -225,6 +225,7 @@ pub struct Stats {
     pub distinct_nontrivial: std::collections::BTreeSet<u64>,
     pub sample_ctr: u64,
     pub classified_kept: u64,
+    pub per_class: BTreeMap<String, u64>,
     pub unclassified_kept: u64,
 }
 
@@ -253,9 +254,12 @@ impl Stats {
     pub fn fail(&mut self, json_obj: String) {
         // failures that carry a known-finding class are kept up to 40 per run, the others up to 200,
         // so that an unclassified failure is never crowded out by known ones
-        if json_obj.contains("\"class\":") {
-            self.classified_kept += 1;
-            if self.classified_kept <= 40 {
+        if let Some(i) = json_obj.find("\"class\":") {
+            // keep up to 15 examples per known-finding class
+            let cls: String = json_obj[i + 8..].chars().skip_while(|c| *c != '"').skip(1).take_while(|c| *c != '"').collect();
+            let k = self.per_class.entry(cls).or_insert(0);
+            *k += 1;
+            if *k <= 15 {
                 self.failures.push(json_obj);
             }
             self.inc("direct_failures_classified");
